@@ -149,6 +149,8 @@ func c19Run(r *simkit.Run) {
 
 	writerDone := false
 
+	var removeIntervals [][2]int64
+
 	r.Go("writer", func() {
 		defer func() { writerDone = true }()
 
@@ -212,8 +214,10 @@ func c19Run(r *simkit.Run) {
 
 				cur := &dbModel{blocks: append([]*dbBlock(nil), model.blocks...)}
 				first := beginChange(append(cands, cur)...)
+				removeIntervals = append(removeIntervals, [2]int64{r.Seq(), 0})
 
 				removed, err := sys.center.RemoveBlocks(h)
+				removeIntervals[len(removeIntervals)-1][1] = r.Seq()
 				if err != nil {
 					r.Fail("remove-error", "error", "RemoveBlocks(%d): %v", h, err)
 				}
@@ -275,11 +279,28 @@ func c19Run(r *simkit.Run) {
 				call := r.Seq()
 
 				got, err := actualReads(sys.center, u)
+				ret := r.Seq()
+
+				// the statement constrains concurrent reads during merges; a read
+				// that overlaps a RemoveBlocks call (a rollback) is not judged
+				overlapsRemove := false
+
+				for _, iv := range removeIntervals {
+					if iv[0] <= ret && (iv[1] == 0 || iv[1] >= call) {
+						overlapsRemove = true
+					}
+				}
+
+				if overlapsRemove {
+					r.Probe("concurrent_snapshot_during_remove_not_judged")
+
+					continue
+				}
+
 				if err != nil {
 					r.Fail("read-error", "concurrent", "reader: %v", err)
 				}
 
-				ret := r.Seq()
 				r.Probe("concurrent_snapshot")
 
 				// every item equals the model at some moment between invoke and return
